@@ -88,7 +88,7 @@ Fixpoint welem_ok (n : nat) (dt : list (N * N)) (cls dcls : N) (e : welem) {stru
   | WEmpty => True
   | WStmt toks it =>
       (exists t r, toks = t :: r /\ is_decl_head t) /\
-      (forall rest, class_stmt_head false (toks ++ rest) = CHNot) /\
+      (forall rest, class_stmt_head false false (toks ++ rest) = CHNot) /\
       forall rest, ev (fun f => member_decl n f cls dcls (toks ++ rest)) (DOk (it, rest))
   | WFwd key _ => class_key key
   | WOne toks mk => one_step n dt cls dcls toks mk
@@ -113,7 +113,7 @@ Fixpoint ssize (l : list welem) : nat := match l with [] => O | x :: r => (esize
 
 Lemma class_head_written key name vs ws X :
   class_key key -> forallb access_ok ws = true -> (match vs with f :: _ => f = true | [] => True end) ->
-  class_stmt_head false (ktok key :: mkTk T_NAME name :: vs_toks vs ++ bases_toks ws ++ ktok LBRACE :: X)
+  class_stmt_head false false (ktok key :: mkTk T_NAME name :: vs_toks vs ++ bases_toks ws ++ ktok LBRACE :: X)
   = CHDef mods0 [key] (Some name) (existsb (fun f => f) vs) (existsb negb vs) (map (resolve (default_access [key])) ws) X.
 Proof.
   intros Hk Hws Hvs.
@@ -140,7 +140,7 @@ Qed.
 
 Lemma class_fwd_written key name X :
   class_key key ->
-  class_stmt_head false (ktok key :: mkTk T_NAME name :: ktok SEMI :: X) = CHFwd mods0 [key] name X.
+  class_stmt_head false false (ktok key :: mkTk T_NAME name :: ktok SEMI :: X) = CHFwd mods0 [key] name X.
 Proof. intros [E|[E|E]]; subst key; reflexivity. Qed.
 
 Lemma class_key_decl_head key : class_key key -> is_decl_head (ktok key).
@@ -150,7 +150,7 @@ Proof. intros [E|[E|E]]; subst key; reflexivity. Qed.
 (* one step of the loop at a token that goes to _parse_declarations, in a class body: by what the class-statement head says *)
 
 Lemma body_step_stmt k' n f dt cls dcls acc aid t r :
-  is_decl_head t -> class_stmt_head false (t :: r) = CHNot ->
+  is_decl_head t -> class_stmt_head false false (t :: r) = CHNot ->
   body (S k') n f dt (Some (cls, dcls)) acc aid (t :: r)
   = match member_decl n f cls dcls (t :: r) with
     | DErr e => DErr e
@@ -163,7 +163,7 @@ Lemma body_step_stmt k' n f dt cls dcls acc aid t r :
 Proof. intros Hh Hc. unfold is_decl_head in Hh. cbn [body]. rewrite Hh, Hc. reflexivity. Qed.
 
 Lemma body_step_fwd k' n f dt cls dcls acc aid t r m key nm r1 :
-  is_decl_head t -> class_stmt_head false (t :: r) = CHFwd m key nm r1 ->
+  is_decl_head t -> class_stmt_head false false (t :: r) = CHFwd m key nm r1 ->
   body (S k') n f dt (Some (cls, dcls)) acc aid (t :: r)
   = match body k' n f dt (Some (cls, dcls)) acc aid r1 with
     | DOk (l, a, rr) => DOk (IFwd acc key nm :: l, a, rr)
@@ -172,7 +172,7 @@ Lemma body_step_fwd k' n f dt cls dcls acc aid t r m key nm r1 :
 Proof. intros Hh Hc. unfold is_decl_head in Hh. cbn [body]. rewrite Hh, Hc. reflexivity. Qed.
 
 Lemma body_step_class k' n f dt cls dcls acc aid t r m key name fi ex bs r1 :
-  is_decl_head t -> class_stmt_head false (t :: r) = CHDef m key (Some name) fi ex bs r1 ->
+  is_decl_head t -> class_stmt_head false false (t :: r) = CHDef m key (Some name) fi ex bs r1 ->
   body (S k') n f dt (Some (cls, dcls)) acc aid (t :: r)
   = match body k' n f dt (Some (name, dtor_of dt name)) (default_access key) aid r1 with
     | DErr e => DErr e
@@ -202,7 +202,7 @@ Proof. intros H. unfold stop_tok in H. cbn [body]. rewrite H. rewrite N.eqb_refl
 
 (* ... and at namespace scope, for a class definition *)
 Lemma body_class_step_ns k' n f dt aid t r m key name fi ex bs r1 :
-  is_decl_head t -> class_stmt_head false (t :: r) = CHDef m key (Some name) fi ex bs r1 ->
+  is_decl_head t -> class_stmt_head false false (t :: r) = CHDef m key (Some name) fi ex bs r1 ->
   body (S k') n f dt None 0 aid (t :: r)
   = match body k' n f dt (Some (name, dtor_of dt name)) (default_access key) aid r1 with
     | DErr e => DErr e
@@ -427,7 +427,7 @@ Definition one_step_ns (n : nat) (dt : list (N * N)) (toks : list tk) (it : item
 Fixpoint nelem_ok (n : nat) (dt : list (N * N)) (e : nelem) {struct e} : Prop :=
   match e with
   | NEmpty => True
-  | NStmt toks it => ns_stmt_ok n toks it /\ (forall rest, class_stmt_head false (toks ++ rest) = CHNot)
+  | NStmt toks it => ns_stmt_ok n toks it /\ (forall rest, class_stmt_head false false (toks ++ rest) = CHNot)
   | NClassE w => welem_ok n dt anon_base anon_base (WClass w)
   | NFwdE key _ => class_key key
   | NOne toks it => one_step_ns n dt toks it
@@ -453,7 +453,7 @@ Proof. destruct T as [|t r]; intros H; [apply body_nil|now apply body_stop]. Qed
 
 (* one step at namespace scope, at a token that goes to _parse_declarations *)
 Lemma body_step_stmt_ns k' n f dt aid t r :
-  is_decl_head t -> class_stmt_head false (t :: r) = CHNot ->
+  is_decl_head t -> class_stmt_head false false (t :: r) = CHNot ->
   body (S k') n f dt None 0 aid (t :: r)
   = match ns_decl n f (t :: r) with
     | DErr e => DErr e
@@ -466,7 +466,7 @@ Lemma body_step_stmt_ns k' n f dt aid t r :
 Proof. intros Hh Hc. unfold is_decl_head in Hh. cbn [body]. rewrite Hh, Hc. reflexivity. Qed.
 
 Lemma body_step_fwd_ns k' n f dt aid t r m key nm r1 :
-  is_decl_head t -> class_stmt_head false (t :: r) = CHFwd m key nm r1 ->
+  is_decl_head t -> class_stmt_head false false (t :: r) = CHFwd m key nm r1 ->
   body (S k') n f dt None 0 aid (t :: r)
   = match body k' n f dt None 0 aid r1 with
     | DOk (l, a, rr) => DOk (IFwd 0 key nm :: l, a, rr)
